@@ -384,3 +384,168 @@ def _flatten(t):
 
 
 LEMMAS = [TapeWriter()]
+
+
+# =============================================================================================== C06
+
+LENS_QUICK = [0, 1, 2, 254, 255, 256, 509, 510, 511, 765]
+
+
+def _upper8(name):
+    return (name[:8]).ljust(8, " ").upper()
+
+
+class TapeRoundTrip:
+    """
+    C06 composed round trip  list_files(add_files(L)) == L  and the reader on foreign well-formed streams.
+    BOUNDED stand-in (never counted as proved): file count <= 3 and data lengths enumerated (every boundary length in
+    the quick tier, every length 0..765 in the thorough tier); file CONTENTS, addresses and name characters are symbolic,
+    so each cell covers all contents of that shape, including the marker bytes 55 3C 00/01/FF.
+    """
+    name = "tape_roundtrip"
+    props = ("C06", "C13")
+
+    def cells(self, tier):
+        out = []
+        lens = LENS_QUICK if tier == "quick" else list(range(0, 766))
+        for L in lens:
+            out.append({"id": "rt/1file/len%d" % L, "kind": "rt", "lens": [L], "names": [5], "bounded": "1 file, data length %d" % L})
+        for nl in (0, 1, 8, 9, 12):
+            out.append({"id": "rt/1file/name%d" % nl, "kind": "rt", "lens": [3], "names": [nl], "bounded": "1 file, name length %d" % nl})
+        pairs = [(1, 255), (255, 1), (256, 256), (0, 5), (5, 0), (510, 3)] if tier == "quick" else \
+            [(a, b) for a in (0, 1, 255, 256, 510) for b in (0, 1, 255, 256, 511)]
+        for a, b in pairs:
+            out.append({"id": "rt/2files/%d,%d" % (a, b), "kind": "rt", "lens": [a, b], "names": [3, 8],
+                        "bounded": "2 files, lengths %d,%d" % (a, b)})
+        for tr in ([1, 2, 3], [255, 0, 1], [256, 255, 254]):
+            out.append({"id": "rt/3files/%s" % ",".join(map(str, tr)), "kind": "rt", "lens": tr, "names": [1, 8, 12],
+                        "bounded": "3 files, lengths %s" % tr})
+        out.append({"id": "rt/0files", "kind": "rt", "lens": [], "names": [], "bounded": "empty list"})
+        for shape in ("leader1", "leader500", "gaps-between-blocks", "no-gap", "two-files-short-leaders"):
+            for L in (1, 255, 256, 600):
+                out.append({"id": "foreign/%s/len%d" % (shape, L), "kind": "foreign", "shape": shape, "len": L,
+                            "bounded": "foreign stream %s, data length %d" % (shape, L)})
+        return out
+
+    def run(self, env, cell):
+        F = Files(env)
+        native = env.mode == "native"
+        if cell["kind"] == "rt":
+            self.k_rt(env, cell, F, native)
+        else:
+            self.k_foreign(env, cell, F, native)
+
+    def _mkfile(self, env, F, j, L, nl):
+        name = name_text(env, nl, "f%dn" % j)
+        if L <= 8 and j == 0:
+            # header fields symbolic (all types, all 16-bit addresses) for the short files ...
+            ftype = env.hole_int("f%dtype" % j, 0, 3)
+            dtype = env.hole_choice("f%ddtype" % j, [0x00, 0xFF])
+            load = env.hole_int("f%dload" % j, 0, 65535)
+            exe = env.hole_int("f%dexec" % j, 0, 65535)
+        else:
+            # ... and concrete for the long ones (the header is independent of the data; its contract is proved
+            # unboundedly in tape_writer), keeping one path per cell
+            ftype, dtype = (2, 0x00) if L % 2 else (0, 0xFF)
+            load, exe = (0x0E00 + L) % 65536, (0xFF00 + 3 * L) % 65536
+        data = env.hole_bytes("f%ddata" % j, L)
+        return F.coco_file(name, ftype, dtype, load, exe, list(data)), (name, ftype, dtype, load, exe, data)
+
+    def _compare(self, env, F, got, want, clause, native, sigpfx):
+        def sig(what):
+            return (lambda: "%s:%s" % (sigpfx, what)) if native else None
+        if len(got) != len(want):
+            env.fail(clause, ("C06",), sig("file-count=%d,want=%d" % (len(got), len(want))))
+            return
+        for j, (g, w) in enumerate(zip(got, want)):
+            name, ftype, dtype, load, exe, data = w
+            gname = F.get(g, "name")
+            wn = name if isinstance(name, str) else None
+            if native:
+                ok_name = _upper8(gname) == _upper8(name)
+            else:
+                from pyvc import strmodel
+                gu = strmodel.s_upper(SStr.of(gname)) if not isinstance(gname, str) else gname.upper()
+                wu = SStr.of(name).chars[:8] if not isinstance(name, str) else [ord(c) for c in name[:8]]
+                wu = strmodel.s_upper(SStr(wu + [0x20] * (8 - len(wu))))
+                ok_name = SStr.of(gu).eq(wu)
+            env.ensure(clause + ":name", ok_name, ("C06",), sig("name@%d" % j))
+            ok = (F.intval(F.get(g, "type")) == ftype) & (F.intval(F.get(g, "data_type")) == dtype) & \
+                 (F.intval(F.get(g, "load_addr")) == load) & (F.intval(F.get(g, "exec_addr")) == exe)
+            env.ensure(clause + ":fields", ok, ("C06",), sig("fields@%d" % j))
+            gd = list(F.get(g, "data"))
+            if len(gd) != len(data):
+                env.fail(clause + ":data", ("C06",), sig("data-length=%d,want=%d@%d" % (len(gd), len(data), j)))
+                continue
+            okd = True
+            for x, y in zip(gd, data):
+                okd = okd & (x == y)
+            env.ensure(clause + ":data", okd, ("C06",), sig("data@%d" % j))
+
+    def k_rt(self, env, cell, F, native):
+        files = [self._mkfile(env, F, j, L, nl) for j, (L, nl) in enumerate(zip(cell["lens"], cell["names"]))]
+        sigpfx = "rt/lens=%s" % ",".join(str(x) for x in cell["lens"])
+        cas = F.new(CAS, "CassetteFile")
+        try:
+            F.method(cas, "add_files", [f[0] for f in files])
+            buf = list(F.get(cas, "buffer"))
+            rd = F.new(CAS, "CassetteFile", buffer=list(buf))
+            got = F.method(rd, "list_files")
+        except Raised as e:
+            env.fail("C13:no-internal-error" if e.cls != "VirtualFileValidationError" else "C06:listing",
+                     ("C13",) if e.cls != "VirtualFileValidationError" else ("C06",),
+                     (lambda: "%s:raised:%s" % (sigpfx, e.cls)) if native else None)
+            return
+        self._compare(env, F, list(got), [f[1] for f in files], "C06:roundtrip", native, sigpfx)
+
+    def k_foreign(self, env, cell, F, native):
+        L = cell["len"]
+        shape = cell["shape"]
+        data = env.hole_bytes("data", L)
+        load = env.hole_int("load", 0, 65535)
+        exe = env.hole_int("exec", 0, 65535)
+        want = []
+
+        def one(name, gap, leader, between):
+            nf = tape.namefile_payload(name, 2, 0, 0xFF if between else 0, 0, 0)
+            nf[11:15] = [_hi(load), _lo(load), _hi(exe), _lo(exe)]
+            out = [0] * gap + [0x55] * leader + _sym_block(0, nf) + [0] * gap + [0x55] * leader
+            d = list(data)
+            first = True
+            while d:
+                if between and not first:
+                    out += [0] * 16 + [0x55] * 32
+                out += _sym_block(1, d[:255])
+                d = d[255:]
+                first = False
+            out += tape.EOF_BLOCK
+            want.append((name, 2, 0, load, exe, data))
+            return out
+        if shape == "leader1":
+            buf = one("FOREIGN", 0, 1, False)
+        elif shape == "leader500":
+            buf = one("FOREIGN", 300, 500, False)
+        elif shape == "gaps-between-blocks":
+            buf = one("GAPPY", 128, 128, True)
+        elif shape == "no-gap":
+            buf = one("NOGAP", 0, 128, False)
+        else:
+            buf = one("A", 0, 2, False) + one("B", 1, 3, False)
+        sigpfx = "foreign/%s/len%d" % (shape, L)
+        try:
+            rd = F.new(CAS, "CassetteFile", buffer=list(buf))
+            got = F.method(rd, "list_files")
+        except Raised as e:
+            env.fail("C06:foreign-listing", ("C06",), (lambda: "%s:raised:%s" % (sigpfx, e.cls)) if native else None)
+            return
+        self._compare(env, F, list(got), want, "C06:foreign", native, sigpfx)
+
+
+def _sym_block(btype, payload):
+    tot = btype + len(payload)
+    for x in payload:
+        tot = tot + x
+    return [0x55, 0x3C, btype, len(payload)] + list(payload) + [tot % 256, 0x55]
+
+
+LEMMAS.append(TapeRoundTrip())
